@@ -349,15 +349,16 @@ def r10_2(ctx):
     for state in ("none", "closing", "open"):
         px = PX(repo, models=[("*.is_closing", lambda px_, t, a, k, fr: state == "closing"), ("frame.to_bytes", lambda *a: b"\x80\x70\x78")],
                 inline=inline_ash())
-        tr = None if state == "none" else Obj(TypeRef("Transport"), {}, tag="tr")
+        tr = None if state == "none" else Obj(TypeRef("Transport"), {}, tag="self._transport")
         for p in px.explore(wf, lambda: (self_obj(ash_cls(ctx), {"_transport": tr}), {"frame": Sym("frame")})):
             w = [e for e in p.events if e.kind == "call" and e.what == "self._transport.write"]
             ok = (state == "open" and len(w) == 1 and p.terminal == "return") or (state != "open" and not w and p.raised("NcpFailure"))
             ctx.require(ok, f"_write_frame:transport={state}", f"transport {state}: {len(w)} writes, {p.terminal} {p.value if p.terminal == 'raise' else ''}", func=wf)
     for g_, n in index(repo).callers("write"):
         if g_.mod == ASH:
-            ctx.require(g_.short == "AshProtocol._write_frame", f"transport.write:caller:{g_.short}", f"{g_.short} writes to the transport directly, bypassing the "
-                        "closed-transport gate", func=g_, node=n)
+            # the function explored above, or a helper it is split into
+            ctx.require(g_.short == "AshProtocol._write_frame" or g_.qual in px.visited, f"transport.write:caller:{g_.short}", f"{g_.short} writes to the transport "
+                        "directly, bypassing the closed-transport gate", func=g_, node=n)
 
 
 def _stack(ctx, callbacks=2, reset_waiter=False):
